@@ -522,7 +522,7 @@ def suite_c07(tier):
                 if idx == 0:
                     pairs = list(itertools.combinations(range(nbits), 2))
                     if quick:
-                        pairs = pairs[::2] if kind == "rtu" else pairs[::4]
+                        pairs = pairs[::4] if kind == "rtu" else pairs[::8]
                 else:
                     pairs = [tuple(r.sample(range(nbits), 2)) for _ in range(30 if quick else 200)]
                 for a, b in pairs:
@@ -538,7 +538,7 @@ def suite_c07(tier):
                 if idx == 0:
                     subs = [(i, v) for i in range(len(p)) for v in range(256) if v != p[i]]
                     if quick:
-                        subs = subs[::3] if kind == "rtu" else subs[::5]
+                        subs = subs[::5] if kind == "rtu" else subs[::9]
                 else:
                     subs = [(r.randrange(len(p)), r.randrange(256)) for _ in range(30 if quick else 300)]
                 for i, v in subs:
@@ -678,7 +678,8 @@ def c06_regions(desc):
     if not desc.get("decodable", True):
         regs.add("pdu")
     if desc["kind"] == "rtu":
-        if not desc.get("size_ok", True):
+        # the known wrong oracles are those of the diagnostic classes (function code 8) only
+        if not desc.get("size_ok", True) and any(f[2][:2] == "08" for f in desc["frames"]):
             regs.add("size")
         consumed = 0
         for t in cuts:
@@ -740,13 +741,13 @@ def regions_for(pid, suite, desc):
         regs = set()
         if desc["kind"] == "bin" and desc.get("delim"):
             regs.add("escaping")
-        if desc["kind"] == "rtu" and not desc.get("size_ok", True):
+        if desc["kind"] == "rtu" and not desc.get("size_ok", True) and desc.get("fc") == 8:
             regs.add("size")
         if not desc.get("decodable", True):
             regs.add("pdu")
         return regs
     if suite == "b_size":
-        return {"size"}
+        return {"size"} if desc["frame"][2:4] == "08" else set()
     if suite == "b_c06":
         return c06_regions(desc)
     if suite == "b_c11":
